@@ -8,6 +8,9 @@ import LocustModel.Lemmas.C01Ints
 import LocustModel.Lemmas.C01Strings
 import LocustModel.Lemmas.C01Present
 import LocustModel.Lemmas.C01Column
+import LocustModel.Lemmas.C01Rows
+import LocustModel.Lemmas.C01Split
+import LocustModel.Lemmas.C01Csv
 /-
   C01 — ingested values come back unchanged from a plain SELECT.  Property theorems only.
   All statements are for lists of ANY length and values over all of i64 / all byte strings / all f64 bit
@@ -196,5 +199,114 @@ theorem C01_compress_transparent (cp : Compressor) (hcp : CompOk cp) (use : Bool
   compress_decode cp hcp use c h
 
 example : CompOk demoComp := demoComp_ok
+
+/-! ## The table: rows, order, alignment across columns -/
+
+/-- **C01, the table.**  For every non-empty sequence of batches (each with ≥ 1 row, ≥ 1 column, distinct
+    column names, every column valid for the batch length — dense, short dense, sparse, mixed, empty or
+    missing, in any combination and with columns coming and going between batches):
+    `push_typed_cols` never fails (none of its three assertions, no underflow in the sparse loops), the
+    buffer holds exactly the sum of the batch lengths, and for EVERY column name — present in all, some or
+    none of the batches — a plain SELECT reads exactly one cell per ingested row, in batch order: the cells
+    the batch supplied for that column (`tableOps`), NULL for every row of a batch that did not carry the
+    column.  Row `k` of every column therefore belongs to the same ingested row (alignment), no column is
+    shorter or longer than the table (the `from_buffer` assertion holds), nothing panics. -/
+theorem C01_rows (cv : Conv) (hcv : ConvOk cv) (cp : Compressor) (hcp : CompOk cp) (use : Bool)
+    (bts : List Batch) (hok : ∀ bt ∈ bts, BatchOk bt) (hne : bts ≠ []) :
+    ∃ b, pushBatches cv {} bts = .ok b ∧ b.length = totalRows bts ∧
+      ∀ name, b.columnCells cv cp use name = .ok (specColumn cv (tableOps name bts)) ∧
+        (specColumn cv (tableOps name bts)).length = totalRows bts := by
+  obtain ⟨b, h1, hinv⟩ := pushBatches_spec cv hcv bts hok (tableInv_nil cv) (by simp)
+  simp only [List.nil_append] at hinv
+  exact ⟨b, h1, hinv.len, fun name => tableInv_columnCells cv hcv cp hcp use hinv hok hne name⟩
+
+/-- non-vacuity: three batches; `a` dense ints then missing then sparse, `s` appears in the second batch only. -/
+example : ∃ b, pushBatches demoConv {} [
+      ⟨2, [("a", .int [1, 2])]⟩,
+      ⟨1, [("s", .str [[120]])]⟩,
+      ⟨3, [("a", .nullableInt 3 [(1, -5)]), ("s", .null 3)]⟩] = .ok b ∧ b.length = 6 ∧
+    b.columnCells demoConv demoComp true "a" = .ok [.int 1, .int 2, .null, .null, .int (-5), .null] ∧
+    b.columnCells demoConv demoComp true "s" = .ok [.null, .null, .str [120], .null, .null, .null] ∧
+    b.columnCells demoConv demoComp true "zz" = .ok (List.replicate 6 .null) := by
+  obtain ⟨b, h1, h2, h3⟩ := C01_rows demoConv demoConv_ok demoComp demoComp_ok true [
+      ⟨2, [("a", .int [1, 2])]⟩,
+      ⟨1, [("s", .str [[120]])]⟩,
+      ⟨3, [("a", .nullableInt 3 [(1, -5)]), ("s", .null 3)]⟩]
+    (by
+      intro bt hbt
+      simp only [List.mem_cons, List.not_mem_nil, or_false] at hbt
+      rcases hbt with h | h | h <;> subst h
+      · exact ⟨by decide, by simp, by simp, by intro p hp; simp at hp; subst hp; exact ⟨rfl, by intro x hx; simp at hx; rcases hx with h | h <;> subst h <;> decide⟩⟩
+      · exact ⟨by decide, by simp, by simp, by intro p hp; simp at hp; subst hp; exact ⟨rfl, by intro x hx; simp at hx; subst hx; decide⟩⟩
+      · exact ⟨by decide, by simp, by simp, by
+          intro p hp; simp at hp
+          rcases hp with h | h <;> subst h
+          · exact ⟨rfl, by simp [SparseOk], by intro q hq; simp at hq; subst hq; decide⟩
+          · exact rfl⟩)
+    (by simp)
+  exact ⟨b, h1, h2, (h3 "a").1, (h3 "s").1, (h3 "zz").1⟩
+
+/-- `InputColumn::from_column_data`: for every valid wire representation of a column in a batch of `rows`
+    rows (dense, SHORT dense → nullable, sparse with strictly increasing indices, strings of the batch
+    length, mixed, empty) the conversion succeeds, the resulting input column is valid for `C01_rows`, and the
+    calls it makes on the column buffer supply — from any state of the specification — exactly the cells
+    of the representation (`repOps`: the dense prefix / the sparse entries / the mixed values, NULL elsewhere). -/
+theorem C01_input_column (cv : Conv) (rows : Nat) (hrows : rows > 0) (rep : Rep) (h : RepOk rows rep) :
+    ∃ ic, fromColumnData rep rows = .ok ic ∧ InputOk rows ic ∧
+      ∀ s, (inputOps ic).foldl (specStep cv) s = (repOps rows (some rep)).foldl (specStep cv) s :=
+  fromColumnData_spec cv rows hrows rep h
+
+example : ∃ ic, fromColumnData (.i64 [7, 8]) 5 = .ok ic ∧ InputOk 5 ic :=
+  let ⟨ic, h1, h2, _⟩ := C01_input_column demoConv 5 (by decide) (.i64 [7, 8])
+    ⟨by decide, by intro x hx; simp at hx; rcases hx with h | h <;> subst h <;> decide⟩
+  ⟨ic, h1, h2⟩
+
+/-! ## `ensure_property`: the planner's two-stage decode -/
+
+/-- `Codec::ensure_property` returns a genuine split `prefix ++ suffix = ops` — or, when every op has the
+    property, `([], reversed ops)` (the fall-through forgets `reverse()`; `compile_expr` only calls it
+    when `is_elementwise_decodable()` is false, so that branch is dead). -/
+theorem C01_split_is_split (p : CodecOp → Bool) (ops : List CodecOp) :
+    (ensureProperty p ops).1 ++ (ensureProperty p ops).2 = ops ∨
+      ((ensureProperty p ops).1 = [] ∧ (ensureProperty p ops).2 = ops.reverse) :=
+  ensureProperty_split p ops
+
+/-- For every column `ColumnBuffer::finalize` can return (all integer shapes, packed / hex-packed /
+    dictionary strings, floats, the all-NULL column; nullable or not), compressed or not: decoding in two
+    stages — `ensure_fixed_width`'s prefix with its `assert_eq!(stack.len(), 1)`, then the rest of the codec —
+    gives exactly what the one-stage decode program gives. -/
+theorem C01_split_decode (cv : Conv) (cp : Compressor) (use : Bool) (cb : ColBuf) (col : Column)
+    (hfin : cb.finalize cv = .ok col) (v : SVal) (h : decode cp.dec (compress cp use col) = .ok v) :
+    decodeQuery cp.dec (compress cp use col) = .ok v := by
+  have hcore := finalize_core cv cb col hfin
+  have hg := coreOps_good col.ops hcore
+  refine decodeQuery_eq cp.dec _ ?_ v h
+  rcases compress_ops cp use col with h1 | h1 <;> rw [h1]
+  · exact hg.1
+  · exact hg.2
+
+example : ensureProperty CodecOp.elementwise [.decomp, .push 3, .nullable, .push 1, .push 2, .dict .u8] =
+    ([.decomp, .push 3, .nullable], [.push 1, .push 2, .dict .u8]) := by rfl
+
+/-! ## CSV: per-chunk column typing (`RawCol::finalize`; `str::parse` results are inputs) -/
+
+/-- one typed value per CSV field, in order (row alignment across the columns of a chunk). -/
+theorem C01_csv_aligned (allow : Bool) (cells : List CsvCell) :
+    (csvFinalize allow cells).length = cells.length := csvFinalize_length allow cells
+
+/-- a chunk's column is single-typed — strings, or floats, or integers, NULLs aside — so the batch built
+    from it never triggers type degradation inside the chunk. -/
+theorem C01_csv_single_typed (allow : Bool) (cells : List CsvCell) :
+    (∀ v ∈ csvFinalize allow cells, v.isNull ∨ v.isStr) ∨
+    (∀ v ∈ csvFinalize allow cells, v.isNull ∨ v.isFloat) ∨
+    (∀ v ∈ csvFinalize allow cells, v.isNull ∨ v.isInt) := csvFinalize_uniform allow cells
+
+/-- without `allow_nulls` a typed column has no NULL (an empty field reads `""` / `0.0` / `0`). -/
+theorem C01_csv_no_null (cells : List CsvCell)
+    (htyped : (csvTypes cells).str = true ∨ (csvTypes cells).float = true ∨ (csvTypes cells).int = true) :
+    ∀ v ∈ csvFinalize false cells, v.isNull = false := csvFinalize_no_null cells htyped
+
+example : csvFinalize true [⟨[55], .int 7 0x401c000000000000⟩, ⟨[], .empty⟩, ⟨[49, 46, 53], .float 0x3ff8000000000000⟩] =
+    [.float 0x401c000000000000, .null, .float 0x3ff8000000000000] := by rfl
 
 end LM.C01
